@@ -28,8 +28,12 @@ import (
 	sdk "github.com/cosmos/cosmos-sdk/types"
 	govv1 "github.com/cosmos/cosmos-sdk/x/gov/types/v1"
 
+	"github.com/ethereum/go-ethereum/crypto"
+
+	fxtypes "github.com/functionx/fx-core/v8/types"
 	crosschaintypes "github.com/functionx/fx-core/v8/x/crosschain/types"
 	erc20types "github.com/functionx/fx-core/v8/x/erc20/types"
+	migratetypes "github.com/functionx/fx-core/v8/x/migrate/types"
 
 	"fxverif/lib"
 )
@@ -69,7 +73,9 @@ func replayN(rep *lib.Report, c *lib.Chain, sc replayScenario, n int, ctxOf func
 		stores map[string]string
 		events []string
 		err    string
+		text   string
 	}
+	texts := map[string]bool{}
 	var first outcome
 	distinct := map[string]bool{}
 	var diff []string
@@ -90,6 +96,10 @@ func replayN(rep *lib.Report, c *lib.Chain, sc replayScenario, n int, ctxOf func
 			err = f(cctx)
 		}()
 		o := outcome{stores: storeDigest(c, cctx, names), events: evStrings(em.ABCIEvents()), err: codeOf(err)}
+		if err != nil {
+			o.text = err.Error()
+		}
+		texts[o.text] = true
 		key := o.err
 		for _, nm := range names {
 			key += "|" + o.stores[nm]
@@ -131,6 +141,9 @@ func replayN(rep *lib.Report, c *lib.Chain, sc replayScenario, n int, ctxOf func
 	sc.Replays, sc.Distinct, sc.Diff = n, len(distinct), diff
 	rep.Case(fmt.Sprintf("inprocess|%s|%d|%s|%s", sc.Kind, sc.Seed, sc.Chain, sc.Detail), first.err == "ok")
 	rep.Count("inprocess-replay:" + sc.Kind)
+	if len(texts) > 1 && len(distinct) == 1 {
+		rep.Notes = append(rep.Notes, fmt.Sprintf("%s: %d replays returned %d different error TEXTS with the same result code, stores and events (not consensus data unless a proposal executes this handler)", sc.Kind, n, len(texts)))
+	}
 	if len(distinct) > 1 {
 		rep.Fail(lib.Failure{Kind: "monitor",
 			What: fmt.Sprintf("%d replays of the same %s on the same state gave %d different outcomes (%s)", n, sc.Kind, len(distinct), sc.Detail),
@@ -355,6 +368,108 @@ func inProcessReplays(rep *lib.Report, seed int64, thorough bool) {
 		sc := replayScenario{Kind: "gov-endblocker-panicking-handler", Seed: cs, Detail: "a passed MsgToggleTokenConversion proposal whose handler panics on a corrupted pair record"}
 		replayN(rep, c, sc, reps, func(ctx sdk.Context) sdk.Context { return ctx.WithBlockTime(after) }, func(ctx sdk.Context) error {
 			_, err := c.App.EndBlocker(ctx)
+			return err
+		})
+	}
+	// handler ERROR paths with several simultaneous causes, executed by a passed proposal: the failure reason
+	// (err.Error() of the handler) is stored in the proposal and emitted by the gov end blocker
+	type failing struct {
+		kind string
+		msgs func(c *lib.Chain, cs int64) []sdk.Msg
+	}
+	for _, f := range []failing{
+		{"gov-endblocker-failing-RegisterCoin(4 taken aliases)", func(c *lib.Chain, cs int64) []sdk.Msg {
+			tok, err := c.SetupModuleOwned("USDV", 1, []string{"eth", "bsc", "tron", "polygon"}, "")
+			lib.Must(err)
+			var taken []string
+			for _, a := range tok.Aliases {
+				taken = append(taken, a.Denom)
+			}
+			return []sdk.Msg{&erc20types.MsgRegisterCoin{Authority: lib.GovAuthority(), Metadata: fxtypes.GetCrossChainMetadataManyToOne("Other coin", "OTHR", 18, taken...)}}
+		}},
+		{"gov-endblocker-failing-RegisterERC20(3 taken aliases)", func(c *lib.Chain, cs int64) []sdk.Msg {
+			tok, err := c.SetupModuleOwned("USDV", 1, []string{"eth", "bsc", "tron"}, "")
+			lib.Must(err)
+			owner := lib.EthKey(cs, "c17-replay-owner", 0)
+			addr, err := c.DeployFIP20(owner, "Free token", "FREE")
+			lib.Must(err)
+			var taken []string
+			for _, a := range tok.Aliases {
+				taken = append(taken, a.Denom)
+			}
+			return []sdk.Msg{&erc20types.MsgRegisterERC20{Authority: lib.GovAuthority(), Erc20Address: addr.Hex(), Aliases: taken}}
+		}},
+	} {
+		cs := seed*1000 + 970
+		c := lib.NewChain(cs, 3+r.Intn(3), nil)
+		u := lib.EthKey(cs, "c17-replay-proposer", 0)
+		c.Mint(u.Acc(), lib.FX(100_000))
+		msgs := f.msgs(c, cs)
+		lib.Must(c.NextBlock())
+		gs := c.App.GovKeeper
+		prop, err := gs.Keeper.SubmitProposal(c.Ctx, msgs, "", "failing", "s", u.Acc(), false)
+		if err != nil {
+			rep.Notes = append(rep.Notes, "scenario "+f.kind+": proposal not accepted at submission: "+err.Error())
+			continue
+		}
+		_, err = gs.AddDeposit(c.Ctx, prop.Id, u.Acc(), sdk.NewCoins(lib.FX(10_000)))
+		lib.Must(err)
+		for _, vk := range c.ValKeys {
+			lib.Must(gs.Keeper.AddVote(c.Ctx, prop.Id, vk.Acc(), govv1.NewNonSplitVoteOption(govv1.OptionYes), ""))
+		}
+		after := c.Time.Add(15 * 24 * time.Hour)
+		sc := replayScenario{Kind: f.kind, Seed: cs, Detail: "a passed proposal whose message fails at execution for several reasons at once"}
+		replayN(rep, c, sc, reps, func(ctx sdk.Context) sdk.Context { return ctx.WithBlockTime(after) }, func(ctx sdk.Context) error {
+			_, err := c.App.EndBlocker(ctx)
+			return err
+		})
+		// the scenario is only meaningful if the proposal really failed at execution
+		cctx, _ := c.Ctx.CacheContext()
+		_, _ = c.App.EndBlocker(cctx.WithBlockTime(after))
+		if p, err := gs.Keeper.Proposals.Get(cctx, prop.Id); err == nil {
+			rep.Count("failing-proposal-status:" + p.Status.String())
+		}
+	}
+	// multi-cause refusals of messages that are not governance messages: the RESULT CODE of the transaction must
+	// not depend on which cause is reported (error text is not consensus data; a difference is reported as a note)
+	{
+		cs := seed*1000 + 980
+		c := lib.NewChain(cs, 3, nil)
+		x := c.X("eth")
+		x.SetupOracles([]int64{10_000, 10_000, 10_000})
+		u := lib.EthKey(cs, "c17-replay-user", 0)
+		c.Mint(u.Acc(), lib.FX(1000))
+		lib.Must(c.NextBlock())
+		x = c.X("eth")
+		coins := sdk.NewCoins(lib.Coin("unknowna", 5), lib.Coin("unknownb", 6), lib.Coin("unknownc", 7), lib.Coin("unknownd", 8))
+		lib.Must(c.App.BankKeeper.MintCoins(c.Ctx, "mint", coins))
+		lib.Must(c.App.BankKeeper.SendCoinsFromModuleToAccount(c.Ctx, "mint", u.Acc(), coins))
+		sc := replayScenario{Kind: "bridge-call-several-unknown-tokens", Seed: cs, Chain: "eth", Detail: "MsgBridgeCall carrying four coins none of which is a bridge token"}
+		replayN(rep, c, sc, reps, nil, func(ctx sdk.Context) error {
+			_, err := x.Msg().BridgeCall(ctx, &crosschaintypes.MsgBridgeCall{ChainName: "eth", Sender: u.Acc().String(), Refund: u.Acc().String(),
+				Coins: coins, To: lib.ExternalAccount(cs, "eth", 2), Data: "", Memo: "", Value: sdkmath.ZeroInt()})
+			return err
+		})
+		// MigrateAccount refused for several reasons at once: the source has a delegation AND is an oracle's bridger AND the
+		// target already exists as an account with funds
+		from := lib.CosmosKey(cs, "c17-replay-from", 0)
+		to := lib.EthKey(cs, "c17-replay-to", 0)
+		c.Mint(from.Acc(), lib.FX(5000))
+		c.Mint(to.Acc(), lib.FX(5000))
+		acc := c.App.AccountKeeper.GetAccount(c.Ctx, from.Acc())
+		lib.Must(acc.SetPubKey(from.Priv.PubKey()))
+		c.App.AccountKeeper.SetAccount(c.Ctx, acc)
+		for _, k := range []lib.Key{from, to} {
+			_, err := c.App.StakingKeeper.Delegate(c.Ctx, k.Acc(), sdkmath.NewInt(100).MulRaw(1e18), 1, mustVal(c, c.ValKeys[0]), true)
+			lib.Must(err)
+		}
+		ecd, err := crypto.ToECDSA(to.ECDSAKeyBytes())
+		lib.Must(err)
+		sig, err := crypto.Sign(migratetypes.MigrateAccountSignatureHash(from.Acc(), to.Hex().Bytes()), ecd)
+		lib.Must(err)
+		sc2 := replayScenario{Kind: "migrate-account-refused-for-several-reasons", Seed: cs, Detail: "source and target both hold delegations"}
+		replayN(rep, c, sc2, reps, nil, func(ctx sdk.Context) error {
+			_, err := c.App.MigrateKeeper.MigrateAccount(ctx, migratetypes.NewMsgMigrateAccount(from.Acc(), to.Hex(), hex.EncodeToString(sig)))
 			return err
 		})
 	}
